@@ -223,6 +223,7 @@ pub fn check(opts: &CheckOpts) -> CheckResult {
     let known: Arc<Vec<Known>> = Arc::new(opts.known.clone());
     let known_hits: Arc<Mutex<Vec<u64>>> = Arc::new(Mutex::new(vec![0; opts.known.len()]));
     let harness: Arc<Mutex<Vec<String>>> = Arc::new(Mutex::new(vec![]));
+    let unreproducible: Arc<Mutex<Vec<String>>> = Arc::new(Mutex::new(vec![]));
     let started = Instant::now();
     let beats: Arc<Vec<Beat>> = Arc::new(
         (0..opts.jobs)
@@ -326,6 +327,7 @@ pub fn check(opts: &CheckOpts) -> CheckResult {
         let known = known.clone();
         let known_hits = known_hits.clone();
         let harness = harness.clone();
+        let unreproducible = unreproducible.clone();
         let beats = beats.clone();
         let prop = opts.prop;
         let tier = opts.tier;
@@ -336,6 +338,8 @@ pub fn check(opts: &CheckOpts) -> CheckResult {
                 .stack_size(64 << 20)
                 .spawn(move || {
                     let mut stats = Stats::new();
+                    // the ordinary cases this worker thread ran last (newest last)
+                    let mut recent: std::collections::VecDeque<Case> = Default::default();
                     let tid = my_tid();
                     beats[w].tid.store(tid, Ordering::Relaxed);
                     loop {
@@ -378,12 +382,37 @@ pub fn check(opts: &CheckOpts) -> CheckResult {
                                 known_hits.lock().unwrap()[k] += 1;
                                 continue;
                             }
-                            stop_above.fetch_min(i, Ordering::Relaxed);
-                            found.lock().unwrap().push(Found {
-                                index: i,
-                                case,
-                                eval: ev,
-                            });
+                            // A simulated run must be a function of its case: the violation
+                            // counts once it has been seen again on a fresh thread - as it
+                            // is, or with cases this worker ran earlier as explicit prelude
+                            // (state the library keeps per thread).
+                            match confirm_isolated(prop, &case, v.oracle, &recent) {
+                                Some((case, ev)) => {
+                                    stop_above.fetch_min(i, Ordering::Relaxed);
+                                    found.lock().unwrap().push(Found {
+                                        index: i,
+                                        case,
+                                        eval: ev,
+                                    });
+                                }
+                                None => {
+                                    unreproducible.lock().unwrap().push(format!(
+                                        "run {i}: {} ({})",
+                                        v.oracle,
+                                        v.detail.chars().take(200).collect::<String>()
+                                    ));
+                                }
+                            }
+                            continue;
+                        }
+                        if case.prelude.is_empty()
+                            && case.thread_seed.is_none()
+                            && case.program.stmts.len() <= 20_000
+                        {
+                            if recent.len() >= 6 {
+                                recent.pop_front();
+                            }
+                            recent.push_back(case);
                         }
                     }
                     stats
@@ -462,7 +491,21 @@ pub fn check(opts: &CheckOpts) -> CheckResult {
         mismatches,
         violations.len(),
     );
-    let harness_errors = std::mem::take(&mut *harness.lock().unwrap());
+    let mut harness_errors = std::mem::take(&mut *harness.lock().unwrap());
+    {
+        // violations that could not be reproduced in isolation are no verdict about the
+        // property; if nothing reproducible was found either, they are a harness error
+        let un = std::mem::take(&mut *unreproducible.lock().unwrap());
+        if !un.is_empty() && violations.is_empty() {
+            harness_errors.push(format!(
+                "{} violation(s) seen on worker threads did not reproduce on a fresh thread, not \
+                 even with the worker's recent cases as prelude (the library's behaviour depends \
+                 on something outside the case); first: {}",
+                un.len(),
+                un[0]
+            ));
+        }
+    }
     let known_hits: Vec<(usize, u64)> = known_hits
         .lock()
         .unwrap()
@@ -568,6 +611,7 @@ fn evaluate_stub() -> Eval {
             layout: vec![],
             seed: 0,
             overrides_write: false,
+            in_place: false,
             faults: vec![],
         }],
         schedule: vec![],
@@ -582,6 +626,7 @@ fn evaluate_stub() -> Eval {
         source_override: None,
         dig_file: None,
         thread_seed: None,
+        prelude: vec![],
     };
     evaluate(Prop::C02, &case)
 }
@@ -803,6 +848,45 @@ pub fn evaluate_guarded(prop: Prop, case: &Case, timeout: Duration) -> Eval {
             return ev;
         }
     }
+}
+
+/// Re-runs a case that violated on a worker thread on a fresh thread. Returns the case that
+/// reproduces the violation there (the case itself, or the case with earlier cases of the
+/// same worker as prelude) with its evaluation, or `None`.
+fn confirm_isolated(
+    prop: Prop,
+    case: &Case,
+    oracle: &str,
+    recent: &std::collections::VecDeque<Case>,
+) -> Option<(Case, Eval)> {
+    let secs = Duration::from_secs(30);
+    let same = |ev: &Eval| {
+        ev.harness_error.is_none()
+            && ev.violation.as_ref().map(|v| v.oracle == oracle).unwrap_or(false)
+    };
+    let ev = evaluate_guarded(prop, case, secs);
+    if same(&ev) {
+        return Some((case.clone(), ev));
+    }
+    if !case.prelude.is_empty() || case.thread_seed.is_some() {
+        // such a case ran on a fresh thread in the first place
+        return None;
+    }
+    for prev in recent.iter().rev() {
+        let mut c = case.clone();
+        c.prelude = vec![prev.clone()];
+        let ev = evaluate_guarded(prop, &c, secs);
+        if same(&ev) {
+            return Some((c, ev));
+        }
+    }
+    let mut c = case.clone();
+    c.prelude = recent.iter().cloned().collect();
+    let ev = evaluate_guarded(prop, &c, secs);
+    if same(&ev) {
+        return Some((c, ev));
+    }
+    None
 }
 
 fn same_violation(prop: Prop, case: &Case, oracle: &str, budget: &mut u32) -> bool {
@@ -1147,6 +1231,11 @@ fn case_variants(case: &Case) -> Vec<Case> {
                 out.push(c);
             }
         }
+        if d.in_place {
+            let mut c = case.clone();
+            c.duts[di].in_place = false;
+            out.push(c);
+        }
         if d.overrides_write {
             let mut c = case.clone();
             c.duts[di].overrides_write = false;
@@ -1184,6 +1273,20 @@ fn case_variants(case: &Case) -> Vec<Case> {
         let mut c = case.clone();
         c.thread_seed = None;
         out.push(c);
+    }
+    if !case.prelude.is_empty() {
+        let mut c = case.clone();
+        c.prelude.pop();
+        out.push(c);
+        // a smaller history: the earlier test run by a single-threaded caller, with a
+        // schedule that simply runs it to the end
+        for (i, p) in case.prelude.iter().enumerate() {
+            if p.thread_seed.is_some() {
+                let mut c = case.clone();
+                c.prelude[i].thread_seed = None;
+                out.push(c);
+            }
+        }
     }
     if !case.reparse.is_empty() {
         let mut c = case.clone();
